@@ -86,7 +86,7 @@ FixedMem == [movq |-> 64, fldcw |-> 16, fnstcw |-> 16, fnstsw |-> 16, movd |-> 3
              sete |-> 8, setne |-> 8, setb |-> 8, setg |-> 8, pinsrw |-> 16, jmp |-> 32, call |-> 32,
              movaps |-> 128, movups |-> 128, addps |-> 128, mulps |-> 128, xorps |-> 128, andps |-> 128, sqrtps |-> 128,
              movdqa |-> 128, movdqu |-> 128, pshufd |-> 128, shufps |-> 128]
-Packed == {"paddb","paddd","paddq","pxor","pand","por","psubb","pcmpeqb","punpcklbw"}
+Packed == {"paddb","paddd","paddq","pxor","pand","por","psubb","pcmpeqb"}      \* (punpckl* mm reads 32 bits: not implied here)
 \* ---------------------------------------------------------------- sizes
 RegSizes(ops) == {GprSize(ops[j].c) : j \in {j \in 1..Len(ops) : ops[j].k = "reg"}} \ {0}
 MemSizes(ops) == {ops[j].sz : j \in {j \in 1..Len(ops) : ops[j].k = "mem"}} \ {0}
